@@ -400,12 +400,31 @@ pub fn diff_exact(a: &Decoded, b: &Decoded) -> Option<(String, String, String)> 
     // may be dropped by a later generation; <dimension> is derived data
     let norm = |d: &Decoded| -> Decoded {
         let mut d = d.clone();
+        // style numbering is not content: every index is replaced by a fingerprint of the
+        // record it resolves to, and the tables themselves are compared by size elsewhere
+        let fp: Vec<u32> = d.styles.cell_xfs.iter().map(|x| (fnv(style_projection(x).to_string().as_bytes()) & 0x7fff_ffff) as u32).collect();
+        let map = |i: u32| -> u32 { fp.get(i as usize).cloned().unwrap_or(i) };
+        d.styles = Default::default();
+        d.shared_strings.items.clear();
+        d.defined_names.sort_by(|a, b| (a.name.clone(), a.local_sheet_id, a.text.clone()).cmp(&(b.name.clone(), b.local_sheet_id, b.text.clone())));
         for s in d.sheets.iter_mut() {
+            for c in s.cells.iter_mut() {
+                c.s = map(c.s);
+                c.has_s = true;
+                c.sst_index = None;
+            }
+            for r in s.rows.iter_mut() {
+                r.s = r.s.map(map);
+            }
+            for c in s.cols.iter_mut() {
+                c.style = c.style.map(map);
+            }
             s.dimension = None;
             for r in s.rows.iter_mut() {
                 r.spans = None; // optimisation hint, derived from the cells
             }
-            s.cells.retain(|c| !(c.kind == "blank" && c.s == 0 && c.formula.as_deref().map_or(true, |f| f.is_empty())));
+            let default_fp = fp.first().cloned().unwrap_or(0);
+            s.cells.retain(|c| !(c.kind == "blank" && c.s == default_fp && c.formula.as_deref().map_or(true, |f| f.is_empty())));
         }
         d
     };
